@@ -1,9 +1,14 @@
 import EmsModel.Core.Plot
+import EmsModel.Core.PlotHistory
 import EmsModel.Core.GeomProto
+import EmsModel.Gen.PlotSrc   -- [B7]
 /-! Line-protocol driver for C19 (plot artists).
 `collection <rings> <values|none|extra> <array 0|1> <clim lo,hi|->`
      → `P=<rings> A=<values|-> C=<lo,hi|->` | `TypeError` | `ValueError`
-`quiver <centres x,y;x,y…> <u values> <v values>` → `x,y,u,v;…` -/
+`quiver <centres x,y;x,y…> <u values> <v values>` → `x,y,u,v;…`
+`history <rings> <step&step…>` with steps `b:<values|none|extra>:<array 0|1>:<clim lo,hi|->` (a call) and
+     `e:<i>:shift:<dx>,<dy>` | `e:<i>:scale:<k>` | `e:<i>:clim:<lo>,<hi>` | `e:<i>:vals:<x>` (the caller changes the i-th artist it holds)
+     → every artist held at the end, in the `collection` form, joined by ` ## ` -/
 open Ems Ems.Proto Ems.GeomProto
 
 def parseRings? (s : String) : Option (List (Option Poly)) :=
@@ -15,6 +20,44 @@ def showVals (l : List (Option Rat)) : String :=
 def showClim : Option (Rat × Rat) → String
   | some (a, b) => s!"{showRat a},{showRat b}"
   | none => "-"
+
+-- [strengthen-6: histories of artists] ---------------------------------------------------------------
+def showPlotResult : PlotResult → String
+  | .typeError => "TypeError"
+  | .valueError => "ValueError"
+  | .ok paths array clim =>
+    let a := match array with
+      | some v => showVals v
+      | none => "-"
+    s!"P={if paths.isEmpty then "(none)" else joinWith "|" (paths.map showRing)} A={a} C={showClim clim}"
+
+def parseClim? (clim : String) : Option (Option (Rat × Rat)) :=
+  if clim == "-" then some none else
+  match clim.splitOn "," with
+  | [a, b] => match parseRat? a, parseRat? b with
+    | some a, some b => some (some (a, b))
+    | _, _ => none
+  | _ => none
+
+def parsePlotStep? (s : String) : Option PlotStep :=
+  match s.splitOn ":" with
+  | ["b", vals, arr, clim] =>
+    let data : Option (Option (Option (List (Option Rat)))) :=
+      if vals == "none" then some none
+      else if vals == "extra" then some (some none)
+      else (parseOptRats? vals).map fun v => some (some v)
+    match data, parseClim? clim, (arr == "0" || arr == "1") with
+    | some d, some c, true => some (.build d { array := arr == "1", clim := c })
+    | _, _, _ => none
+  | ["e", i, what, arg] =>
+    match parseNat? i, what, (arg.splitOn ",").map parseRat? with
+    | some i, "shift", [some dx, some dy] => some (.edit i (ArtistEdit.shift dx dy).apply)
+    | some i, "scale", [some k] => some (.edit i (ArtistEdit.scale k).apply)
+    | some i, "clim", [some lo, some hi] => some (.edit i (ArtistEdit.clim lo hi).apply)
+    | some i, "vals", [some x] => some (.edit i (ArtistEdit.vals x).apply)
+    | _, _, _ => none
+  | _ => none
+-- [/strengthen-6] -------------------------------------------------------------------------------------
 
 def step (line : String) : String :=
   match words line with
@@ -44,6 +87,25 @@ def step (line : String) : String :=
             | none => "-"
           s!"P={if paths.isEmpty then "(none)" else joinWith "|" (paths.map showRing)} A={a} C={showClim clim}"
       | _, _ => "BAD"
+  | ["history", rings, steps] =>     -- [strengthen-6]
+    match parseRings? rings, Proto.allSome ((steps.splitOn "&").map parsePlotStep?) with
+    | some ps, some h => joinWith " ## " ((playPlot ps h).map showPlotResult)
+    | _, _ => "BAD"
+  | ["srccollection", rings, vals, arr, clim] =>     -- [B7] the program generated from the source of make_poly_collection
+    match parseRings? rings, parseClim? clim with
+    | some ps, some c =>
+      let data : Option (Option (NArr (Option Rat))) :=
+        if vals == "none" then some none
+        else if vals == "extra" then some (some ⟨[("time", 2), ("face", ps.length)], List.replicate (2 * ps.length) none⟩)
+        else (parseOptRats? vals).map fun v => some ⟨[("face", v.length)], v⟩
+      match data with
+      | some d =>
+        match psPolyResult (psRun ⟨ps, [], ["face"], d, none, none⟩ Ems.Gen.plotSrcMakePolyCollection
+            (psInitKw { array := arr == "1", clim := c } none)) with
+        | some (r, _) => showPlotResult r
+        | none => "STUCK"
+      | none => "BAD"
+    | _, _ => "BAD"
   | ["quiver", centres, u, v] =>
     match parseOptRats? u, parseOptRats? v with
     | some us, some vs =>
